@@ -62,22 +62,57 @@ CFG = dict(
                  cmd=["bash", "-c", RACE_C13, "race_c13", "{work}", "{seed}", "{tier}"],
                  tiers=["quick", "thorough"], timeout=1800, kind="data-race")],
     trusted=[T_COMMON[1], T_COMMON[2],
-             "engine F extractor /verif/go/facts/c13.go (syntactic, go/parser only; fails on any construct it does not recognise)",
+             "engine F extractor /verif/go/facts/c13.go (syntactic, go/parser only): fails on any construct it does not recognise and on ANY event "
+             "under control flow (only `if cond { panic(...) }` is accepted); self-tests tools/c13_extractor_selftest.sh (18 seeded instance.go)",
              "hand-written models PolyVerif/Model/Linz.lean, Model/Nodes.lean (tied by streams c13 and c11)",
              "sync.Mutex, the Go memory model, the race detector",
-             "the driver's linearization search is NOT trusted: its result is validated by the verified checkWitness"],
+             "the driver's linearization search is NOT trusted: its result is validated by the verified checkWitness, which also checks that the "
+             "recorded history is well formed (unique invocation ids, at most one response per id, response after invocation)"],
     residue=["data-race freedom is the race detector's verdict on the generated schedules, not a theorem",
-             "that the Go functions behave like the client program of Linz.Step (idle/invoked/holding/executed/unlocked) rests on the "
-             "lock facts (syntactic) and the correspondence, not on a semantics of Go",
+             "linearizability is proved of the FINE-GRAINED locked system FExec (multi-step critical sections, fine_linearizable via the "
+             "refinement fine_refines_atomic, which uses mutual exclusion); that the Go functions ARE such clients — every access to shared "
+             "state between Lock and Unlock, micro-steps composing to the sequential effect (programs_correct: artifactTrace splits "
+             "process() of the producer one level deep) — rests on the regenerated lock facts (syntactic) and the correspondence, not on a semantics of Go",
+             "`Linearization` itself does not demand a well-formed history; executions of the model produce well-formed ones, and for recorded "
+             "histories checkWitness (wfHist) enforces it",
              "HTTP plumbing (app_server*.go, saver.Save() after an update, websocket hub) is not modelled; the three entry points are what the handlers call",
              "graph edits (ConnectNodes, CreateNode, DeleteNode, SetNodeAsProducer, ApplyAppSchema) concurrent with the three calls are outside the "
              "property and the model: they mutate i.producers / i.nodeIDs without producerLock; the whitelisted pre-lock producers lookup is "
              "sound only because none of the three entry points writes that map",
              "Instance.ModelVersion() reads movelVersion without the lock (app_server.go:228, room/hub.go:176) while UpdateParameter "
              "increments it under the lock: a race outside the three entry points (source: 'TODO: Make thread safe')",
+             "explicit (non-deferred) Unlock: a panic between Lock and Unlock would leave the mutex held — a deadlock the harness watchdog would show, "
+             "not the lock facts; today all three functions defer the Unlock",
              "malformed JSON in UpdateParameter, unknown node ids / producer names (panic) are not generated; liveness is not claimed",
              "an unlocked ParameterData alone is caught by the lock facts and the race detector, not by the linearizability oracle "
              "(a single-word read stays linearizable in every recorded history)",
-             "C11's guard (acyclic graph; processors read all their inputs) is inherited"],
+             "C11's guards (acyclic graph; ReadsAll: processors read all their wired inputs — used by artifact_snapshot: an artifact equals the "
+             "from-scratch value) are inherited; for skipping processors the artifact values are tested fresh (C11), not proved"],
     assumptions=["wiring is fixed during a concurrent history", "sync.Mutex provides mutual exclusion and happens-before"],
+    manifest=dict(
+        text="Lean 4 theorems about lock-protocol models over C11's node-graph model. Atomic system Exec (one step per critical section): "
+             "mutex_invariant; linearizable (EVERY execution, any number of clients, any interleaving, is linearized by the critical-section "
+             "order: complete, respects real-time precedence, a run of the sequential specification). FINE-GRAINED system FExec (the lock owner "
+             "performs any number of micro-steps on the shared state between Lock and Unlock, arbitrarily interleaved with other clients): "
+             "critical_section_atomic, fine_refines_atomic (every FExec execution is, through an abstraction function, an Exec execution with "
+             "the same history — the proof uses mutual exclusion) and hence fine_linearizable; programs_correct / locked_artifact_is_atomic (the "
+             "micro-steps of Artifact compose to the sequential Eval). artifact_snapshot / paramData_snapshot / snapshot_params / "
+             "completed_before_is_visible (every artifact equals the from-scratch evaluation of ONE parameter valuation, the one at its "
+             "linearization point; nothing older than a completed update is read). unlocked_not_linearizable (closed two-client diamond schedule "
+             "without the lock mixing two states). witness_check_sound (the executable check implies a well-formed, Linearizable history). "
+             "lock_facts_well_locked by decide over facts REGENERATED from instance.go on every run: for UpdateParameter / ParameterData / "
+             "Artifact exactly one Lock before any shared-state access, Unlock deferred immediately or explicit as the last act, exactly one "
+             "return (the last event); the extractor refuses any lock operation, access or return under control flow. Tie: sequential replays "
+             "on a real graph.Instance match the model exactly; histories recorded from 1–16 goroutines (GOMAXPROCS 1/2/4/16, unique update "
+             "values, yielding processors) are linearized by an untrusted search whose witness the verified checker validates; the same stream "
+             "under the race detector.",
+        note="Trusted: Lean kernel + 3 axioms; the syntactic lock-fact extractor (self-tested on 18 seeded variants of instance.go); harness; "
+             "Go's sync.Mutex; the race detector. Runtime residue: data-race freedom is the race detector's verdict on the runs made, not a "
+             "theorem. That the Go functions are clients of the fine-grained model (all shared-state accesses between Lock and Unlock; their "
+             "steps compose to the sequential operation) rests on the lock facts plus correspondence, not on a Go semantics; the split of "
+             "process() into micro-steps is one level deep. artifact_snapshot inherits C11's guards (acyclic graph, processors that read all "
+             "wired inputs). HTTP plumbing, graph edits concurrent with the three calls, ModelVersion() (unlocked read, outside the three entry "
+             "points) are not modelled.",
+        technique="Lean 4 proof (linearizability of the atomic lock protocol over C11's model, refinement from the fine-grained locked system, "
+                  "verified witness checker) + regenerated lock facts + recorded-history validation + race detector"),
 )
